@@ -1,40 +1,75 @@
 (* Properties/C01.v — a completed exchange delivers every accepted message exactly once, intact.
 
-   Proved for ALL inputs, on the model side (B2F/Side.v): the codecs the exchange rests on --
-   the framed transfer round-trips for every payload; the proposals of a turn are a permutation
-   of what the handler offered, in precedence-then-size(-then-MID) order, at most five per
-   block; the block checksum the sender prints is the value the receiver recomputes; whatever
-   reaches the inbound handler went through an accepted transfer whose payload decompressed
-   with a successful Close (C04).  The pair-level statement (two sides, any schedule) is kept
-   as a Prop over the executable pair run below and is decided per run: pairs of real sessions
-   over segmenting in-memory links, the statement evaluated on the handlers' logs, and each
-   real side compared with the model side fed with its peer's actual bytes. *)
+   THEOREM (C01_exchange): for two model sides (B2F/Side.v) of opposite roles with compatible
+   handshakes, handlers present and Prepare succeeding, outboxes whose entries respect the wire
+   formats (no CR or blank in a MID, no NUL in the first 80 title bytes, compressed size
+   6 .. 2^63-1), carry the MIDs they are proposed under, have pairwise distinct MIDs none of
+   which the peer fails to store or the owner has already marked: there IS a complete, uncut
+   session (each side's input is exactly what the other wrote), and EVERY such session ends
+   with nil on both sides and, in both directions, for every outbox entry: if the peer's policy
+   accepts it, the owner's log holds exactly one EvSetSent(mid, false) and the peer's log
+   exactly one EvProcess(mid, data, true) with data the decompressed message of that entry;
+   if the peer rejects it, exactly one EvSetSent(mid, true) and no transfer; if the peer defers
+   it, exactly one EvSetDeferred and no transfer; and nothing of the kind for any other MID.
+   Any number of messages and blocks, any policies.  (B2F/DeliverP.v, on the joint invariant of
+   B2F/PairP.v.)  In the terms first used here: C01_delivered_once.  The iteration pair_iter
+   returns such a session whenever it stops (C01_iteration); that it stops within the stated
+   number of rounds when started from the empty input is not proved (an instance with 6 + 2
+   messages is computed).  Each hypothesis is shown necessary by a closed counterexample in
+   DeliverP.v; the statement as it was first written here (roles and handlers only) is
+   refuted (C01_first_statement_refuted).
+
+   Also proved for ALL inputs: the codecs the exchange rests on -- the framed transfer
+   round-trips for every payload; the proposals of a turn are a permutation of what the
+   handler offered, in precedence-then-size(-then-MID) order, at most five per block; the block
+   checksum the sender prints is the value the receiver recomputes; whatever reaches the
+   inbound handler went through an accepted transfer whose payload decompressed with a
+   successful Close (C04).  Per run: pairs of real sessions over segmenting in-memory links,
+   the statement evaluated on the handlers' logs, and each real side compared with the model
+   side fed with its peer's actual bytes. *)
 From Coq Require Import Sorting.Permutation Sorting.Sorted.
-From Verif Require Import Base.Bytes B2F.Secure B2F.Side B2F.SideP B2F.CodecP gen.Tables.
+From Verif Require Import Base.Bytes B2F.Secure B2F.Side B2F.SideP B2F.CodecP B2F.PairIter B2F.PairDefs B2F.PairP B2F.DeliverP gen.Tables.
 Open Scope N_scope.
 
-(* executable pair run: iterate the two sides on each other's output until it is stable *)
-Fixpoint pair_iter (n : nat) (a b : side_cfg) (in_a : bytes) : outcome * outcome :=
-  let oa := exchange a in_a in
-  let ob := exchange b (x_wire oa) in
-  match n with
-  | O => (oa, ob)
-  | S k => if beq_bytes (x_wire ob) in_a then (oa, ob) else pair_iter k a b (x_wire ob)
-  end.
+(* THE EXCHANGE *)
+Theorem C01_exchange : forall (a b : side_cfg),
+  c_master a = negb (c_master b) ->
+  hs_compat (if c_master a then a else b) (if c_master a then b else a) ->
+  side_ready a b -> side_ready b a ->
+  (exists in_a in_b, closed a b in_a in_b) /\
+  (forall in_a in_b, closed a b in_a in_b -> exchange_delivers a b in_a in_b).
+Proof. exact complete_exchange_delivers. Qed.
+Print Assumptions C01_exchange.
 
-(* FULL STATEMENT (not asserted), for the reference handler: everything B's policy accepts is
-   processed by B exactly once and reported sent to A exactly once, both results nil *)
-Definition delivered_once (o : outcome) (mid : bytes) : Prop :=
-  length (filter (fun e => match e with EvProcess m _ true => beq_bytes m mid | _ => false end) (x_events o)) = 1%nat.
-Definition sent_once (o : outcome) (mid : bytes) : Prop :=
-  length (filter (fun e => match e with EvSetSent m false => beq_bytes m mid | _ => false end) (x_events o)) = 1%nat.
-Definition C01_exchange_statement : Prop :=
-  forall a b n, c_master a = negb (c_master b) -> h_present (c_handler a) = true -> h_present (c_handler b) = true ->
-    (n >= 4 * (length (h_outbox (c_handler a)) + length (h_outbox (c_handler b))) + 8)%nat ->
-    let '(oa, ob) := pair_iter n a b [] in
-    x_res oa = XNil /\ x_res ob = XNil /\
-    forall p, In p (h_outbox (c_handler a)) -> policy_of (c_handler b) (o_mid p) = AAccept ->
-              delivered_once ob (o_mid p) /\ sent_once oa (o_mid p).
+(* in the terms first used in this file *)
+Theorem C01_delivered_once : forall (a b : side_cfg),
+  c_master a = negb (c_master b) ->
+  hs_compat (if c_master a then a else b) (if c_master a then b else a) ->
+  side_ready a b -> side_ready b a ->
+  exists in_a in_b,
+    let oa := exchange a in_a in let ob := exchange b in_b in
+    x_wire oa = in_b /\ x_wire ob = in_a /\ x_res oa = XNil /\ x_res ob = XNil /\
+    (forall p, In p (h_outbox (c_handler a)) -> policy_of (c_handler b) (o_mid p) = AAccept ->
+       delivered_once ob (o_mid p) /\ sent_once oa (o_mid p)) /\
+    (forall p, In p (h_outbox (c_handler b)) -> policy_of (c_handler a) (o_mid p) = AAccept ->
+       delivered_once oa (o_mid p) /\ sent_once ob (o_mid p)).
+Proof. exact C01_exchange_delivers. Qed.
+Print Assumptions C01_delivered_once.
+
+(* the iteration: started at a complete session it returns it *)
+Theorem C01_iteration : forall n a b in_a in_b, closed a b in_a in_b ->
+  pair_iter n a b in_a = (exchange a in_a, exchange b in_b).
+Proof. exact pair_iter_closed. Qed.
+Print Assumptions C01_iteration.
+
+(* the statement as first written (roles and handlers only) is false *)
+Theorem C01_first_statement_refuted : ~ C01_exchange_statement.
+Proof. exact C01_exchange_statement_is_false. Qed.
+Print Assumptions C01_first_statement_refuted.
+
+(* an instance with 6 + 2 messages, one rejected, one deferred: the iteration from the empty
+   input reaches the complete session (computed by the kernel) *)
+Example C01_instance_iteration := dx_iter.
 
 Theorem C01_frames_roundtrip : forall d rest,
   let wire := data_chunks (S (length d)) d ++ [CHREOT; (256 - sumN d mod 256) mod 256] ++ rest in
